@@ -5,15 +5,18 @@
 (* lines: recv(t, m, d, fwd, out) - an event arrived (m = it has the configured type),   *)
 (*           fwd = what the destination received before the handler returned;            *)
 (*        rep(t, f, out) - the destination received f outside a handler: a repetition;   *)
+(*        stall(t, k) - the event loop was kept busy from t for k ticks;                 *)
 (*        error(...) - the simulation failed;  stop(t);  end(t).                         *)
 EXTENDS TraceLib
-VARIABLES s, now, phase, tid, l
+VARIABLES s, now, free, phase, tid, l
 R == INSTANCE Repeat
-vars == <<s, now, phase>>
+vars == <<s, now, free, phase>>
 H(t) == Traces[t].hdr
 Ev(t) == Traces[t].ev
-TraceInit == tid \in 1..NTraces /\ l = 1 /\ s = R!Init0 /\ now = 0 /\ phase = "run"
-NotOverdue(t) == s.due = R!NONE \/ s.due >= t        \* a due repetition was not skipped
+TraceInit == tid \in 1..NTraces /\ l = 1 /\ s = R!Init0 /\ now = 0 /\ free = 0 /\ phase = "run"
+(* a due repetition was not skipped (free = the instant the loop became free after the   *)
+(* last stall: things that became due during the stall happen then, in any order)        *)
+NotOverdue(t) == s.due = R!NONE \/ s.due >= t \/ t = free
 Same(f, g) == /\ f.tag = g.tag /\ f.val = g.val /\ f.x = g.x      \* original items kept
               /\ f.rep = g.rep /\ f.src = g.src /\ f.orig = g.orig
 RecvLine(e) ==
@@ -23,19 +26,23 @@ RecvLine(e) ==
             /\ Len(e.fwd) = 1 /\ Same(e.fwd[1], R!Sent(H(tid).me, e.d, 0))   \* forwarded at once, repeat=0
        ELSE /\ e.fwd = <<>> /\ UNCHANGED s                                     \* other types are ignored
     /\ e.out = s'.out
-    /\ now' = e.t /\ UNCHANGED phase
+    /\ now' = e.t /\ UNCHANGED <<phase, free>>
 RepLine(e) ==
     /\ e.ev = "rep" /\ phase = "run" /\ e.t >= now
-    /\ s.due = e.t                                          \* exactly one interval after the last one
+    /\ s.due # R!NONE
+    /\ e.t = (IF s.due >= free THEN s.due ELSE free)        \* exactly one interval after the last one
+                                                            \* (or as soon as a busy loop is free again)
     /\ Same(e.f, R!Sent(H(tid).me, s.last, s.n + 1))        \* the most recent event, next number
     /\ s' = R!Tick(H(tid), s, e.t) /\ e.out = s'.out
-    /\ now' = e.t /\ UNCHANGED phase
+    /\ now' = e.t /\ UNCHANGED <<phase, free>>
+StallLine(e) == /\ e.ev = "stall" /\ phase = "run" /\ e.t >= now /\ NotOverdue(e.t)
+                /\ now' = e.t + e.k /\ free' = e.t + e.k /\ UNCHANGED <<s, phase>>
 StopLine(e) == /\ e.ev = "stop" /\ phase = "run" /\ e.t >= now /\ NotOverdue(e.t)
-               /\ phase' = "stopped" /\ now' = e.t /\ UNCHANGED s
+               /\ phase' = "stopped" /\ now' = e.t /\ UNCHANGED <<s, free>>
 EndLine(e) == /\ e.ev = "end" /\ phase = "stopped" /\ e.t >= now
-              /\ phase' = "ended" /\ now' = e.t /\ UNCHANGED s
+              /\ phase' = "ended" /\ now' = e.t /\ UNCHANGED <<s, free>>
 Step == /\ l <= Len(Ev(tid))
-        /\ LET e == Ev(tid)[l] IN RecvLine(e) \/ RepLine(e) \/ StopLine(e) \/ EndLine(e)
+        /\ LET e == Ev(tid)[l] IN RecvLine(e) \/ RepLine(e) \/ StallLine(e) \/ StopLine(e) \/ EndLine(e)
         /\ l' = l + 1 /\ UNCHANGED tid
 TraceSpec == TraceInit /\ [][Step]_<<vars, tid, l>>
 ASSUME InitRegs
